@@ -24,7 +24,7 @@ RULE = ('one trash-put of one file per case over the lattice: home on / or on it
         'switch is involved; distinct = (home mode, file place, .Trash state, .Trash-uid state, xdg, options, chosen kind)')
 ASSUMPTIONS = ['relative XDG_DATA_HOME and unset HOME are not generated (the statement does not define them)',
                'worlds where the prescribed directory cannot be created (parent is a file) are not generated']
-PROBES = ['home-chosen', 'top-chosen', 'alt-chosen', 'custom-chosen', 'none-chosen', 'created-0700', 'cross-volume-symlink-path',
+PROBES = ['with-concurrent-companion', 'home-chosen', 'top-chosen', 'alt-chosen', 'custom-chosen', 'none-chosen', 'created-0700', 'cross-volume-symlink-path',
           'xdg-empty', 'fallback-copy', 'alt-symlink-other-volume', 'umask-not-022']
 TECHNIQUE = 'deterministic simulation of trash-put over the configuration lattice; chosen directory compared with a spec-level chooser; op-trace monitor for EXDEV/copy and stdin reads'
 LEVEL_TEXT = 'seeded exploration of mount layouts x .Trash states x env x options; decision-table check against model/chooser.py plus mode and same-volume checks'
@@ -38,8 +38,8 @@ def gen(rng):
     L = G.make_layout(rng, trash_states=ts, alt_states=als, xdg=xdg)
     steps = L['steps']
     home, uid, env = L['home'], L['uid'], dict(L['env'])
-    place = rng.choice(['home', 'home', 'vol', 'vol', 'nested', 'via_link', 'link_parent', 'root_tmp'])
-    if place in ('vol', 'via_link') and not L['vols']:
+    place = rng.choice(['home', 'home', 'vol', 'vol', 'nested', 'via_link', 'link_parent', 'root_tmp', 'link_arg_slash'])
+    if place in ('vol', 'via_link', 'link_arg_slash') and not L['vols']:
         place = 'home'
     if place == 'nested' and not any(v.endswith('/nested') for v in L['vols']):
         place = 'vol' if L['vols'] else 'home'
@@ -64,10 +64,19 @@ def gen(rng):
         steps.append(['d', d, 0o755])
         steps.append(['l', home + '/w/dirlink', 'realdir'])
         arg = home + '/w/dirlink/target'
+    elif place == 'link_arg_slash':
+        # the argument itself is a symlink (on the home volume) to a directory on another
+        # volume, written with trailing slashes: the link is the entry, its volume the home volume
+        v = rng.choice(L['vols'])
+        d = home + '/w'
+        steps.append(['d', L['work'][v] + '/far', 0o755])
+        steps.append(['l', d + '/target', L['work'][v] + '/far'])
+        arg = d + '/target' + '/' * rng.randint(1, 2)
     else:
         d = '/tmp'
         arg = '/tmp/target'
-    G.make_entry(rng, d + '/target', rng.choice(['file', 'dir', 'link_dangling']), steps, home + '/aux')
+    if place != 'link_arg_slash':
+        G.make_entry(rng, d + '/target', rng.choice(['file', 'dir', 'link_dangling']), steps, home + '/aux')
     opts = []
     if rng.random() < 0.15:
         opts += ['--trash-dir', rng.choice([home + '/ct', d + '/../ct2', 'relct'] + [v + '/ct' for v in L['vols']])]
@@ -78,7 +87,14 @@ def gen(rng):
     if rng.random() < 0.2:
         opts.append('-v')
     cwd = rng.choice(['/', home, d])
+    companion = None
+    if rng.random() < 0.25:
+        # another trash-put of the same user, on the same volume, at the same time
+        steps.append(['f', d + '/companion-file', 'companion', 0o644])
+        companion = {'argv': ['trash-put'] + [o for o in opts if o != '-v'] + ['--', d + '/companion-file'], 'env': env, 'cwd': '/', 'uid': uid}
     return {
+        'companion': companion,
+        'sched_seed': rng.randrange(1 << 30),
         'world': {'mounts': L['mounts'], 'steps': steps},
         'procs': [{'argv': ['trash-put'] + opts + ['--', arg], 'env': env, 'cwd': cwd, 'uid': uid, 'stdin': 'n\nn\n'}],
         'dirsalt': rng.randrange(1 << 30),
@@ -107,11 +123,25 @@ def check(sim, case, st):
     td = opt_value(argv, '--trash-dir')
     fb = '--home-fallback' in argv and env.get('TRASH_ENABLE_HOME_FALLBACK') == '1'
     exp, why = MC.prescribed(snap0, mounts, env, uid, parent_real, td, cwd, fb)
-    r = sim.run(spec)
+    comp = case.get('companion')
+    if comp:
+        import random as _random
+        from sim import sched as SS
+        cn = OP.name_entry(sim.root, comp.get('cwd', '/'), comp['argv'][-1], snap0, mounts)
+        if cn.kind != 'entry' or OP.related([nm, cn]):
+            return []
+        chooser = SS.Chooser(_random.Random(case.get('sched_seed', 0)), 'uniform', nprocs=2)
+        results, _sch = SS.run_concurrent(sim, [spec, comp], chooser)
+        r = results[0]
+        st.probes['with-concurrent-companion'] += 1
+        snap1 = sim.snap()
+        outs, probs = OP.judge(sim.root, snap0, snap1, [nm, cn], mounts, [])
+    else:
+        r = sim.run(spec)
+        snap1 = sim.snap()
+        outs, probs = OP.judge(sim.root, snap0, snap1, [nm], mounts, [])
     st.sims += 1
     st.ops += r.nops
-    snap1 = sim.snap()
-    outs, probs = OP.judge(sim.root, snap0, snap1, [nm], mounts, [])
     oc = outs[0]
     res = []
     note = case.get('note', {})
